@@ -18,8 +18,11 @@
      mid, irt        "none" | "plain" | "folded" (value on a continuation line)
      body  [s, pc, pe, hc, he, pf]   structure, charset/CTE of the plain and of the HTML part,
                      pf: the plain text contains a line starting with "From "
-     att1, att2  [p, fn, known, pl, cte]  present?, file-name form, MIME type known to the
-                     library's table?, payload kind, transfer encoding
+     att1, att2  [p, fn, ns, nx, known, pl, cte]  present?, file-name FORM (none / ascii / RFC 2231 /
+                     RFC 2047), name SHAPE ns (plain, with "/", with "\", drive prefix, leading dot,
+                     "..", surrounding blanks, specials ; " %), name EXTENSION nx (the payload's own,
+                     none, misleading), MIME type known to the library's table?, payload kind (every
+                     supported document type with a MIME type, + arbitrary bytes), transfer encoding
      nest            two attachments: the first sits in an inner multipart/mixed with the body
      ser             serialisation (hand-assembled headers LF/CRLF, stdlib policies)
    The concretiser (mbv/c16_mailgen.py) turns m into bytes with the standard library only.
@@ -44,6 +47,11 @@
      DC7  an attachment whose MIME type is unknown to the library: extracting it through
           iterate_supported_attachments() is optional, but if it is extracted the content must
           be the attached document's
+     DC9  leading / trailing blanks of a declared file name (the standard library's get_filename()
+          strips them; both parsers do)                                         [projection]
+     DC10 a supported attachment whose NAME carries a misleading extension: the library documents
+          routing by name first, so it may be extracted as the name says, as the type says, or be
+          skipped when the name's reader fails; it must not yield anything else
      DC8  text/* attachment sent with a textual CTE (quoted-printable): line ends of the
           bytes (tag "bytesnl" = equal after CRLF -> LF)
    EXCLUDED from the universe (stated, never generated): raw 8-bit MIME parameter values (RFC 6532
@@ -83,7 +91,10 @@ Structs   == {"plain", "html", "alt", "related", "altrel"}
 Charsets  == {"ascii", "utf8", "latin1", "koi8r"}
 CTEs      == {"7bit", "qp", "base64"}
 FnKinds   == {"none", "ascii", "rfc2231", "rfc2047"}
-Payloads  == {"txt", "html", "csv", "docx", "bin"}
+NameShapes == {"plain", "slash", "bslash", "drive", "dot", "updir", "blank", "special"}
+NameExts  == {"ext", "noext", "wrongext"}
+DocPayloads == {"txt", "html", "csv", "docx", "pptx", "xlsx", "odt", "ods", "odp", "odg", "pdf", "rtf", "epub"}
+Payloads  == DocPayloads \cup {"bin"}
 AttCTEs   == {"base64", "qp"}
 Sers      == {"hand", "handcrlf", "smtp", "smtputf8", "compat32"}
 
@@ -125,6 +136,8 @@ ExpAtt(a, j) == [ name  |-> IF a.fn = "none" THEN Absent ELSE <<"fn", a.fn, j>>,
                   type  |-> <<"type", a.pl, KnownN(a)>>,
                   bytes |-> <<"bytes", a.pl, j>>,
                   sup   |-> a.known,
+                  \* the law of the last clause of C16: extracted through the e-mail result = extracted
+                  \* on its own (same result type, same full text), whatever the NAME looks like
                   supp  |-> IF a.known THEN <<"ft", a.pl, j>> ELSE Absent ]
 ExpAtts(m) == [ j \in DOMAIN Atts(m) |-> ExpAtt(Atts(m)[j], j) ]
 
@@ -151,6 +164,8 @@ InDomain_KF_C16_01(path, a) ==
 AcceptSupp(path, a, e, o) ==
     \/ o.supp = e.supp
     \/ ~a.known /\ o.supp = <<"ft", a.pl, e.bytes[3]>>                          \* DC7
+    \/ /\ a.known /\ a.fn # "none" /\ a.nx = "wrongext"                         \* DC10
+       /\ o.supp \in {Absent, <<"ftastxt", a.pl, e.bytes[3]>>}
     \/ /\ "InventedTxtName" \in Deviations /\ InDomain_KF_C16_01(path, a)
        /\ o.supp \in {Absent, <<"ftastxt", a.pl, e.bytes[3]>>}
 
